@@ -402,7 +402,7 @@ def quadratic_arms(chk, unit):
                         kk = conv.key(y["a"])
                         if kk:
                             env.vals.pop(kk, None)
-                    if y.get("k") == "Un" and y["op"] in ("++", "--", "p++", "p--"):
+                    if y.get("k") == "Un" and y["op"] in ("pre++", "post++", "pre--", "post--"):
                         kk = conv.key(y["x"])
                         if kk:
                             env.vals.pop(kk, None)
